@@ -71,6 +71,7 @@ var sdScenarios = []sdScenario{
 	{Name: "om-manual-commit", Component: "om", Variant: "manual-commit", KMax: 80},
 	{Name: "client-refresher", Component: "client", Variant: "refresher", KMax: 60},
 	{Name: "client-shared", Component: "client", Variant: "shared", KMax: 120},
+	{Name: "client-users-racing", Component: "client", Variant: "racing-users", KMax: 120},
 }
 
 type sdCase struct {
@@ -1134,14 +1135,36 @@ func sdClient(r *sdRun, rng *rand.Rand) {
 					client.Partitions("t")
 					client.Leader("t", 0)
 					client.RefreshMetadata("t")
+					if r.sc.Variant == "racing-users" {
+						client.RefreshCoordinator("sdg")
+						client.Coordinator("sdg")
+						client.RefreshController()
+						client.WritablePartitions("t")
+					}
 					atomic.AddInt64(&r.app, 1)
 				}
 			}()
 		}
-		closers = append(closers, func() { users.Wait() })
+		if r.sc.Variant != "racing-users" {
+			closers = append(closers, func() { users.Wait() })
+		}
 	}
 	r.setCloser(func() {
 		r.closeBegun()
+		if r.sc.Variant == "racing-users" {
+			// other goroutines are in the middle of their calls when the client is closed: they get
+			// ErrClosedClient (or their answer), nothing panics
+			if err := client.Close(); err != nil {
+				r.add("close-error", "client", fmt.Sprintf("Client.Close returned %v", err))
+			}
+			time.Sleep(2 * time.Millisecond)
+			close(stop)
+			users.Wait()
+			if err := client.Close(); err != sarama.ErrClosedClient {
+				r.add("double-close", "client", fmt.Sprintf("second Client.Close returned %v", err))
+			}
+			return
+		}
 		close(stop)
 		for _, c := range closers {
 			c()
